@@ -106,6 +106,31 @@ def classOf : Option Bytes → FileClass
     | .ok _ => .valid
     | _ => .corrupt
 
+/-- **`cache.Init`** (a fresh project: every task name with the empty digest, written by the same `Dump`): the file loads,
+    every task is in it, and every digest read back is `""` — "never succeeded", the `mem := fun _ => none` of the run
+    machine's `initWriting` step; a torn `Init` is a syntax error like any other torn write (`C10_torn_write_is_syntax_error`) -/
+theorem C10_init_file (names : List Bytes) (hn : names.Nodup) (hv : ∀ n ∈ names, ValidUtf8 n) :
+    ∃ kvs, load (encodeMap (names.map fun n => (n, []))) = .ok kvs ∧
+      (∀ n ∈ names, lookup kvs n = some []) ∧ ∀ k, k ∉ names → lookup kvs k = none := by
+  have hk : ((names.map fun n => ((n, []) : KV)).map (·.1)).Nodup := by
+    have e : (names.map fun n => ((n, []) : KV)).map (·.1) = names := by
+      rw [List.map_map]; exact (List.map_congr_left (fun _ _ => rfl)).trans (List.map_id _)
+    rw [e]; exact hn
+  obtain ⟨kvs, hl, hlk⟩ := C10_whole_write_same_map (names.map fun n => (n, [])) hk (by
+    intro kv hkv
+    obtain ⟨n, hnm, rfl⟩ := List.mem_map.mp hkv
+    exact ⟨hv n hnm, by intro r hr; simp [decodeAll] at hr⟩)
+  refine ⟨kvs, hl, ?_, ?_⟩
+  · intro n hnm
+    rw [hlk]
+    exact lookup_of_mem hk (List.mem_map.mpr ⟨n, hnm, rfl⟩)
+  · intro k hk'
+    rw [hlk]
+    exact lookup_none (by
+      intro v hmem
+      obtain ⟨n, hnm, he⟩ := List.mem_map.mp hmem
+      exact hk' (by cases he; exact hnm))
+
 /-- after "truncate, then write some prefix of the new contents" the file is `valid` exactly when the write completed
     — the two micro-steps `corrupt`, `valid s.mem` of `Run.step` -/
 theorem C10_disk_class (m : List KV) (q : Bytes) (hq : q <+: encodeMap m) :
